@@ -26,10 +26,16 @@ def sir_scenarios(seed, n_random, sizes=(3, 4), exhaustive2=True, dvals=(0, 1, 2
         n = rng.choice(sizes)
         p = rng.choice([0.4, 0.6, 0.9])
         adj = [[0] * n for _ in range(n)]
+        directed = 1 if rng.random() < 0.25 else 0       # a directed contact network: u can infect v along an arc u -> v only
         for u in range(n):
             for v in range(u + 1, n):
                 if rng.random() < p:
                     adj[u][v] = adj[v][u] = 1
+                    if directed and rng.random() < 0.6:
+                        if rng.random() < 0.5:
+                            adj[u][v] = 0
+                        else:
+                            adj[v][u] = 0
         init = ["S"] * n
         k = rng.choice([1, 1, 2])
         for u in rng.sample(range(n), k):
@@ -42,7 +48,7 @@ def sir_scenarios(seed, n_random, sizes=(3, 4), exhaustive2=True, dvals=(0, 1, 2
         dur = [rng.choice(upool) for _ in range(n)]
         tmin = rng.choice([0, 0, 3])
         tmax = rng.choice([INF, INF, tmin + 2, tmin + 4])
-        out.append({"n": n, "adj": adj, "init": init, "delay": delay, "dur": dur, "tmin": tmin, "tmax": tmax})
+        out.append({"n": n, "adj": adj, "init": init, "delay": delay, "dur": dur, "tmin": tmin, "tmax": tmax, "directed": directed})
     return out
 
 
